@@ -113,6 +113,10 @@ def _orders(tier, seed):
     return out, total
 
 
+def precheck():
+    return dec.verify_fixtures(PROPERTY_ID)
+
+
 def tasks(tier, seed):
     orders, total = _orders(tier, seed)
     out = []
